@@ -102,6 +102,24 @@ theorem C07_count_write_set (w u : Option Mask) (delta : Bool) (h : H) (old src 
   · intro t ht; rw [vs.2.1] at ht; exact (vs.2.2.2 t ht).1
   · intro t ht; rw [rs.2.1] at ht; exact (rs.2.2.2 t ht).1
 
+/-- **C07_count_reset_value.** What `ResetCount` hands back (and stores) reads (0, 0, the time the request carried AT
+THE CALL, or the clock's reading when it carried none) — held in a timestamp of its own (`C07_count_write_set`), so
+by `C07_count_published_immutable` it keeps reading so whatever the caller does to its request afterwards. -/
+theorem C07_count_reset_value (h : H) (stored : Nat) (req : Option Nat) (now : Int) (hst : stored < h.cn)
+    (hreq : ∀ t, req = some t → t < h.tn) :
+    deep (reset h stored req now).1 (reset h stored req now).2 =
+      (0, 0, some (match req with | some t => h.ts t | none => now)) := by
+  have h2 : stored ≠ h.cn := Nat.ne_of_lt hst
+  cases req with
+  | none =>
+    cases hr : (h.cs stored).rt <;>
+    simp [reset, valueSet, clone, merge, wEmpty, wfilter, resetDst, protoMerge, H.allocC, H.allocT, H.setC, H.setT, deep, hr, h2]
+  | some t =>
+    have := hreq t rfl
+    have h1 : t ≠ h.tn := Nat.ne_of_lt this
+    cases hr : (h.cs stored).rt <;>
+    simp [reset, valueSet, clone, merge, wEmpty, wfilter, resetDst, protoMerge, H.allocC, H.allocT, H.setC, H.setT, deep, hr, h1, h2]
+
 /-- **C07_count_caller_may_mutate.** A caller that overwrites the timestamp its `ResetCount` request carried, after the
 call returned, changes neither the response nor the stored count: both still read as they did when the call
 returned (for every writable-fields configuration, state, timestamp the caller owns and value written). -/
